@@ -8,7 +8,7 @@ LEAN_TARGETS = ["EtkVerif.Props.C11"]
 RULE = ("acyclic expression-macro definition DAGs (1-5 macros, 0-2 parameters drawn from a shared pool of names so that "
         "different macros reuse parameter names), bodies that call earlier macros forwarding their parameters, invocations with "
         "literal / label / nested-invocation arguments, extra arguments, definitions before or after use; the reference is "
-        "substitution-based evaluation in Python. plus injected faults (unknown macro, missing argument, self-recursion). "
+        "substitution-based evaluation in Python. plus n/8 three-deep frame programs (an argument that is itself an invocation forwarding the caller's parameter to a callee with an equally named parameter; bodies reading a variable only an enclosing invocation binds: must be UndeclaredVariableMacro). plus injected faults (unknown macro, missing argument, self-recursion). "
         "non-trivial = at least one macro calls another")
 EXHAUSTIVE = {"quick": False, "thorough": False}
 ASSUMPTIONS = []
@@ -16,7 +16,11 @@ ASSUMPTIONS = []
 
 def cases(rng, tier):
     n = 400 if tier == "quick" else 6000
-    return family_cases(rng, [("emacros", G.gen_emacros), ("forwarding", G.gen_forwarding)], n, faults=0.25)
+    cs = family_cases(rng, [("emacros", G.gen_emacros), ("forwarding", G.gen_forwarding)], n, faults=0.25)
+    # frames three deep: an argument that is itself an invocation forwarding the caller's parameter; bodies reading a
+    # variable that only an enclosing invocation binds (must be an error, not the caller's value)
+    cs += family_cases(rng, [("nested-frames", G.gen_nested_frames)], n // 8, faults=0.0)
+    return cs
 
 
 def nontrivial(case, reply):
